@@ -171,6 +171,10 @@ class Report:
     def assume(self, *keys_or_text):
         for k in keys_or_text:
             t = STANDING_ASSUMPTIONS.get(k, k)
+            if k == "debug":
+                # no longer a bare assumption: the frame lemma is discharged from the real AST on this run (vf/props/debug_frame.py)
+                from .props import debug_frame
+                t = debug_frame.check(self, self.prop)
             if t not in self.assumptions:
                 self.assumptions.append(t)
 
